@@ -58,6 +58,12 @@ func verif_assert(b bool) {
 
 func verif_assume(b bool) {}
 
+// verif_rangeidx stands for the number of completed iterations of the enclosing range loop (contracts only).
+func verif_rangeidx() int { return 0 }
+
+// verif_arg stands for the i-th argument of the call a call-site assertion is attached to (contracts only).
+func verif_arg[T any](i int) T { var z T; return z }
+
 // ---- the documented meaning of a BlobRange over a blob of |size| bytes
 
 // verif_range_start: negative offsets count from the end.
